@@ -151,6 +151,17 @@
       read afterwards is the snapshot `slice`; comparisons on `i32` are those of `Int`, `x as uW` for `x: i32` is
       `cast_i32 w` (two's complement); `if let Some(x) = &mut place` makes `x` an alias of the payload of `place`;
       `place.take()` on an `Option` place reads it and stores `None`;
+      `generate_random_bytes()` (crypto.rs, external; manifest RANDOM_SOURCES) is an EXPLICIT parameter `rand<k> : List Nat`
+      of the generated function — its k-th call site in textual order; sites inside loops / closures are rejected; a
+      translated fn calling a fn with such parameters gets parameters of its own for them;
+      `Box::new(x)` is `x`; `slice.contains(&x)` is `RustSem.contains` (`==` of the element type);
+      `call(&mut place.., ..)?` where `place` lies behind an index / map entry / `Option` payload: on the callee's `Err`
+      the state it reports for the argument is written back into that element (`List.set` / `insert` with the values the
+      intermediate places had just before the call — the reads the argument evaluation performs anyway);
+      `return call(..)` of a `Result` fn with the same error type leaves through the early-exit channel;
+      a `Result` call with two components of `&mut` state that the caller inspects is `Exec.attempt2`;
+      `vec.into_iter()` is the list of the elements (by value, same order); an or-pattern inside a tuple pattern
+      (`(A, X | Y)`) is distributed (`(A, X) | (A, Y)`);
     * a type parameter `I: Into<T>` is `T` and `x.into()` the identity on it (what every caller in the crates passes:
       `u8` channel ids, `Bytes` / `Vec<u8>` messages); a `Result` call whose result the caller inspects
       (`if let Err(e) = f(..)`, `match f(..) { Ok(..) => .., Err(..) => .. }`) is `Exec.attempt`: the `&mut` state the
@@ -261,6 +272,12 @@ theorem call_panic (s : String) : (call (.panic s : Res ε α) : Exec ε ρ α) 
 def attempt {ε' σ : Type} (r : Res (ε' × σ) (σ × α)) : Exec ε ρ (σ × Except ε' α) :=
   match r with
   | .ok (s, a) => .val (s, .ok a)
+  | .err (e, s) => .val (s, .error e)
+  | .panic m => .panic m
+/-- the same for a callee with two components of `&mut` state -/
+def attempt2 {ε' σ₁ σ₂ : Type} (r : Res (ε' × (σ₁ × σ₂)) (σ₁ × σ₂ × α)) : Exec ε ρ ((σ₁ × σ₂) × Except ε' α) :=
+  match r with
+  | .ok (s₁, s₂, a) => .val ((s₁, s₂), .ok a)
   | .err (e, s) => .val (s, .error e)
   | .panic m => .panic m
 /-- the same for a fn without `&mut` state -/
@@ -483,6 +500,8 @@ def index (l : List α) (i : Nat) (site : String) : Exec ε ρ α :=
   match l[i]? with
   | some x => .val x
   | none => .panic site
+/-- `l.contains(&x)` (`==` of the element type) -/
+def contains [DecidableEq α] (l : List α) (x : α) : Bool := l.any (fun y => decide (y = x))
 /-- `l[i] = v` -/
 def set (l : List α) (i : Nat) (v : α) (site : String) : Exec ε ρ (List α) :=
   if i < l.length then .val (l.set i v) else .panic site
